@@ -112,6 +112,18 @@ func OwnedBy(m Mismatch, a map[string]any, prop string) bool {
 	if strings.HasPrefix(m.Kind, "txn") && prop == "C12" {
 		return true
 	}
+	if strings.HasPrefix(m.Kind, "steps.") {
+		switch prop {
+		case "C18":
+			return true
+		case "C15":
+			return m.Kind == "steps.events" || m.Kind == "steps.state"
+		case "C07", "C06":
+			return m.Kind == "steps.state" || m.Kind == "steps.resp"
+		}
+
+		return false
+	}
 	if m.Kind == "codec" && prop == "C11" {
 		return true
 	}
